@@ -133,7 +133,7 @@ def strategy(tier):
     invalid = st.tuples(safe, st.integers(0, 1000), st.integers(0, 1000)).map(_mk_invalid).map(
         lambda s: s if s is not None else {"skip": True})
     from .. import gen_store
-    hist = gen_store.case(S_CLASSES, S_WEIGHTS, max_ops=40)
+    hist = gen_store.case(S_CLASSES, S_WEIGHTS, max_ops=40, macros=4, extra=9)
     return st.one_of(valid, valid, valid, valid_conv, valid_conv, valid_conv, valid_fleet, valid_fleet, valid_k1, valid_k7,
                      invalid, invalid, invalid, hist, hist, hist)
 
